@@ -60,7 +60,7 @@ class UnitsAdapter(Adapter):
             x = self.rng.integers(1, 6, 7)          # an array of whole numbers (T* = 1, 2, 3, ...): integer dtype
         else:
             x = self.rng.uniform(0.05, 3.0, 7)
-        d = 1.25
+        d = float(self.rng.choice([0.8, 1.25, 2.0]))        # the site diameter is an ARGUMENT: another one at every call
         before = (str(uc.dc.to_base_units()), str(uc.ec.to_base_units()))
         x0 = np.array(x, dtype=float)           # the argument as the caller sees it before the call
         try:
